@@ -6,15 +6,15 @@ From Coq Require Import ZArith QArith Qcanon Bool List Arith.
 From SSJ Require Import Model.Sparse Model.SimpleBlk Model.SimpleBlkQ Model.Chain Model.GET Model.NLSolve Proofs.NLSolveProofs.
 Import ListNotations.
 
-Theorem nl_zero_shock : forall maxit N T ss prog U Tg shocks tol,
+Theorem nl_zero_shock : forall force maxit N T ss prog U Tg shocks tol,
   ss_consistent ss prog ->
   (forall b oe, In b prog -> In oe (sb_outs b) -> (fst oe < N)%nat) ->
   (forall d, In d shocks -> (fst d < N)%nat) -> (forall u, In u U -> (u < N)%nat) ->
   (forall d v, In d shocks -> In v (snd d) -> v = g0) ->
   (g0 < tol)%Qc ->
   let U0 := map (fun _ => repeat g0 (Z.to_nat T)) U in
-  let res := nl_results N T ss ss prog U shocks U0 in
-  nl_solve (S maxit) N T ss ss prog U Tg shocks tol = Converged U0 res /\
+  let res := nl_results force N T ss ss prog U shocks U0 in
+  nl_solve force (S maxit) N T ss ss prog U Tg shocks tol = Converged U0 res /\
   forall o v, In v (dev_of ss res o) -> v = g0.
 Proof. exact nl_zero_shock_lemma. Qed.
 Print Assumptions nl_zero_shock.
